@@ -475,6 +475,7 @@ type Line struct {
 	Seg    []int  `json:"seg"`
 	Drop   int    `json:"drop"`
 	Dropn  int    `json:"dropn"`
+	Trail  int    `json:"trail"` // bytes appended behind DISCONNECT in the last message (never processed)
 }
 
 type Result struct {
@@ -501,6 +502,7 @@ var (
 	maxPkt   = flag.Int("maxpkt", 0, "mqtt.max_packet_size of the broker (0 = default)")
 	softMs   = flag.Int("soft", 1500, "ms without progress before the canary is consulted (bulk)")
 	patMs    = flag.Int("patient", 8000, "the same for the confirmation runs")
+	victims  = flag.Int("victims", 0, "scenarios with a tail behind DISCONNECT are followed by a fresh connection, that many rounds")
 	lingerMs = flag.Int("linger", 250, "ms to wait for answers that may legitimately be lost (packets sharing a message with DISCONNECT)")
 )
 
@@ -589,6 +591,37 @@ func diffAt(a, b []byte) int {
 // runScenario runs the scenario; a run that only differs from the reference by a repeated delivery (an anomaly of the
 // broker's session queue that the TCP twin shows as well, about once in 10^5 exchanges) is noted and repeated.
 func runScenario(ln *Line, raw []byte, soft time.Duration) *Result {
+	if ln.Trail > 0 && *victims > 0 {
+		return runWithVictims(ln, raw, soft)
+	}
+	return runScenario1(ln, raw, soft)
+}
+
+// runWithVictims: the scenario leaves bytes behind its DISCONNECT that the broker never reads.  Every connection made
+// afterwards must still see exactly its own bytes: the same stream in one message on a NEW connection, -victims times.
+func runWithVictims(ln *Line, raw []byte, soft time.Duration) *Result {
+	var res *Result
+	for round := 0; round < *victims; round++ {
+		res = runScenario1(ln, raw, soft)
+		if !res.OK {
+			return res
+		}
+		p := profiles[ln.Stream]
+		n := len(build(p, "w0000000", "s/0000000").Bytes)
+		vl := &Line{Stream: ln.Stream, Fam: "victim", Seg: []int{n}}
+		v := runScenario1(vl, raw, soft)
+		if !v.OK {
+			v.ln = ln
+			v.line = raw
+			v.Detail = fmt.Sprintf("a NEW connection (the same stream in one message) made after a connection that left %d unread bytes behind its DISCONNECT: %s", ln.Trail, v.Detail)
+			v.Sig = "ws-foreign-bytes:" + v.Kind
+			return v
+		}
+	}
+	return res
+}
+
+func runScenario1(ln *Line, raw []byte, soft time.Duration) *Result {
 	for try := 0; ; try++ {
 		res := runOnce(ln, raw, soft)
 		if res.OK || !res.dupDelivery || try == 2 {
@@ -715,7 +748,11 @@ func runOnce(ln *Line, raw []byte, soft time.Duration) *Result {
 			mt = websocket.TextMessage
 		}
 		_ = c.SetWriteDeadline(time.Now().Add(2 * hard))
-		if err := c.WriteMessage(mt, st.Bytes[off:off+n]); err != nil {
+		chunk := st.Bytes[off : off+n]
+		if ln.Trail > 0 && hasDisc && ln.Text == 0 && off+n == len(st.Bytes) && n > 0 {
+			chunk = append(append([]byte(nil), chunk...), make([]byte, ln.Trail)...)
+		}
+		if err := c.WriteMessage(mt, chunk); err != nil {
 			if i > final && hasDisc {
 				break
 			}
